@@ -23,10 +23,14 @@ Base ==
       Item  |-> Rule(Ch3(Ref("Pair"), Call("Box", <<Kw("q", Right(Str(<<33>>), Ref("Word")))>>), Ref("Word"))),
       Word  |-> Rule(WordRx),
       Pair  |-> Class(<< Field("key", Ref("Word")), PassM(Str(<<colon>>)), LetF("gap", Opt(Str(<<sp>>))),
-                         Field("val", Call("Wrap", <<Pos(Ref("Word"))>>)),
+                         \* (the argument is compound and mentions the earlier field in inline Python: the generator moves
+                         \* it into a helper function, which has to be given the field's value)
+                         Field("val", Call("Wrap", <<Pos(Where(Ref("Word"), Py(<<"lam", "ne", <<"var", "key">>>>)))>>)),
                          Req(<<"eq", <<"len", <<"var", "key">>>>, <<"len", <<"var", "key">>>>>>) >>),
-      Wrap  |-> RuleP(<<"p">>, Let("tmp", Ref("p"), Seq2(Py(<<"lst", << <<"var", "tmp">>, <<"var", "tmp">> >> >>),
-                                                        Rep(Str(<<42>>), NoB, Nb(2))))),
+      \* (likewise for the let variable: it is mentioned inside a compound argument)
+      Wrap  |-> RuleP(<<"p">>, Let("tmp", Ref("p"), Call("Hold", <<Pos(Seq2(Py(<<"lst", << <<"var", "tmp">>, <<"var", "tmp">> >> >>),
+                                                                          Rep(Str(<<42>>), NoB, Nb(2))))>>))),
+      Hold  |-> RuleP(<<"hh">>, Ref("hh")),
       \* a class with a VALUE parameter: its curried entry point  Cnt.parse(2)(text)  is used from outside
       Cnt   |-> ClassP(<<"m">>, <<Field("xs", Rep(Str(<<42>>), Nm("m"), Nm("m"))), Field("more", Opt(Ref("Word")))>>),
       \* defined after the classes: inline Python with a lambda, inside a compound argument (moved into a helper function)
@@ -119,7 +123,10 @@ Init == /\ ri \in 1..Len(Roles) /\ pi \in 1..Len(Pool) /\ done = FALSE
         /\ (Pool[pi].dyn => Roles[ri][1] \in DynRoles)
 
 Rho == (Roles[ri][1] :> Pool[pi].name)
-Clash == Pool[pi].name \in DOMAIN Base \/ \E k \in 1..Len(Roles) : Roles[k][1] = Pool[pi].name   \* not injective
+Clash == \/ Pool[pi].name \in DOMAIN Base \/ \E k \in 1..Len(Roles) : Roles[k][1] = Pool[pi].name   \* not injective
+         \* v_ is the parameter of the lambdas the renderer writes; the field `key` is mentioned inside one of them, so
+         \* this renaming would be captured by the lambda's own parameter - in the description, not in generated code
+         \/ (Pool[pi].name = "v_" /\ Roles[ri][1] = "key")
 
 G0 == [rules |-> Base, ign |-> <<>>, start |-> "start"]
 G1 == [rules |-> Rename(Base, Rho), ign |-> <<>>, start |-> "start"]
